@@ -129,9 +129,10 @@ func SpecGen(csiGeom bool, maxRecs int) *rapid.Generator[Spec] {
 	return rapid.Custom(func(t *rapid.T) Spec {
 		s := Spec{NRefs: rapid.IntRange(1, 4).Draw(t, "nrefs"), MinShift: 14}
 		if csiGeom {
-			// up to ranges of 2^40: coordinates beyond 32 bits are legal in CSI
-			s.Depth = rapid.IntRange(1, 9).Draw(t, "depth")
-			s.MinShift = rapid.IntRange(4, 16).Draw(t, "minshift")
+			// ranges up to 2^40 (coordinates beyond 32 bits are legal in CSI). The depth
+			// stays at 6: a whole-range query lists (8^(depth+1)-1)/7 bins.
+			s.Depth = rapid.IntRange(1, 6).Draw(t, "depth")
+			s.MinShift = rapid.IntRange(4, 24).Draw(t, "minshift")
 			for s.MinShift+3*s.Depth > 40 {
 				s.MinShift--
 			}
